@@ -33,6 +33,8 @@ func TestC10(t *testing.T) {
 		{"create-getnode-fails", []Op{{Kind: "create", Pod: 0, Count: 2, CPU: 50, Mem: 100}}, 0, FaultSpec{Method: "GetNode", Target: "*", Ord: 0}, false},
 		{"realloc-update-fails", []Op{{Kind: "create", Pod: 0, Count: 1, CPU: 50, Mem: 100}, {Kind: "realloc", CPU: 50, Mem: 100}}, 1, FaultSpec{Method: "UpdateWorkload", Target: "*", Ord: 0}, false},
 		{"realloc-engine-fails", []Op{{Kind: "create", Pod: 0, Count: 1, CPU: 50, Mem: 100}, {Kind: "realloc", CPU: 50, Mem: 100}}, 1, FaultSpec{Method: "VirtualizationUpdateResource", Target: "*", Ord: 0}, false},
+		{"realloc-plugin-write-fails", []Op{{Kind: "create", Pod: 0, Count: 1, CPU: 50, Mem: 100}, {Kind: "realloc", CPU: 50, Mem: 100}}, 1, FaultSpec{Method: "Plugin.SetNodeResourceUsage", Target: "*", Ord: 0}, false},
+		{"create-plugin-write-fails", []Op{{Kind: "create", Pod: 0, Count: 2, CPU: 50, Mem: 100}}, 0, FaultSpec{Method: "Plugin.SetNodeResourceUsage", Target: "*", Ord: 0}, false},
 		{"remove-engine-fails", []Op{{Kind: "create", Pod: 0, Count: 2, CPU: 50, Mem: 100}, {Kind: "remove", Force: true}}, 1, FaultSpec{Method: "VirtualizationRemove", Target: "*", Ord: 0}, false},
 		{"removenode-plugin-fails", []Op{{Kind: "removenode", Node: 2}}, 0, FaultSpec{Method: "RemoveNode", Target: "n2", Ord: 1}, false},
 		{"setnode-update-fails", []Op{{Kind: "setnode", Node: 1, SetMem: true, Delta: true, Mem: 500}}, 0, FaultSpec{Method: "UpdateNodes", Target: "*", Ord: 0}, false},
